@@ -61,6 +61,20 @@ Theorem C10_count : forall max_dt cur out, 0 < max_dt ->
 Proof. exact steps_count. Qed.
 Print Assumptions C10_count.
 
+(** The whole list: exactly [qk] full-length steps (each of magnitude max_dt), then at most one remainder step,
+    strictly shorter than max_dt and at least 1e-9 long. *)
+Theorem C10_shape : forall max_dt cur out, 0 < max_dt -> exists tail,
+  qsteps max_dt cur out = repeat (qm max_dt cur out) (Z.to_nat (qk max_dt cur out)) ++ tail /\
+  Qabs (qm max_dt cur out) == max_dt /\ (length tail <= 1)%nat /\
+  (forall d, In d tail -> d == qrem max_dt cur out /\ (1 # 1000000000) <= Qabs d /\ Qabs d < max_dt).
+Proof. exact steps_shape. Qed.
+Print Assumptions C10_shape.
+
+Theorem C10_length : forall max_dt cur out, 0 < max_dt ->
+  (length (qsteps max_dt cur out) <= Z.to_nat (qk max_dt cur out) + 1)%nat.
+Proof. exact steps_length. Qed.
+Print Assumptions C10_length.
+
 (** non-vacuity: a forward move with a remainder, and a backward move *)
 Example C10_nonvacuous :
   map Qred (qsteps (1 # 10) 0 (35 # 100)) = [1 # 10; 1 # 10; 1 # 10; 1 # 20] /\
